@@ -28,6 +28,7 @@ import PynetVerif.Driver.Pause
 import PynetVerif.Driver.Life
 import PynetVerif.Driver.Wake
 import PynetVerif.Driver.Bind
+import PynetVerif.Driver.Part10
 open PynetVerif
 
 /-- Each model contributes `String → List SExp → Option SExp` (none = not my op). -/
@@ -60,7 +61,8 @@ def handlers : List (String → List SExp → Option SExp) :=
    Driver.pauseOps,
    Driver.lifeOps,
    Driver.wakeOps,
-   Driver.bindOps]
+   Driver.bindOps,
+   Driver.part10Ops]
 
 def handle (e : SExp) : SExp :=
   match e with
